@@ -940,8 +940,11 @@ class Frame:
                     self.ctx.event('keyerror', k[1], (b,), guard=self.guard(), where=self.where(n) if n is not None else '?')
                     return ('missing', k[1])
                 return col
-            # boolean-mask / positional row selection keeps the columns
-            return ('table', tuple((c, T.index(v, ('rowsel', k))) for c, v in b[1]), T.call('count', (k,)))
+            # boolean-mask row selection keeps the columns; anything else (label lists, an Index object ...) is not modelled
+            if k[0] in ('cmp0', 'cmp', 'band', 'bor', 'binv', 'col', 'idx', 'atom', 'param', 'not'):
+                return ('table', tuple((c, T.index(v, ('rowsel', k))) for c, v in b[1]), T.call('count', (k,)))
+            self.ctx.unmodelled.add('DataFrame.__getitem__')
+            return T.call('DataFrame.__getitem__', (b, k))
         if b[0] == 'dict':
             if T.isconst(k):
                 v = dict(b[1]).get(k[1])
